@@ -51,7 +51,7 @@ def generate(seed, tier, idx=0):
                                p_cancel=0.08)
     if clock == "int":
         prog["rep"] = [int(x) for x in prog["rep"]]
-    stats = [{"kind": rng.choice(KINDS), "via": rng.choice(["direct", "event"])}
+    stats = [{"kind": rng.choice(KINDS), "via": rng.choice(["direct", "event", "event2", "event_ctor"])}
              for _ in range(rng.randint(1, 3))]
     lists = [prog["roots"]] + [prog["events"][e] for e in program.event_ids(prog)]
     for al in lists:
@@ -137,6 +137,17 @@ def generate(seed, tier, idx=0):
             rep2 = [float(x) for x in rep2]
         if rep2[2] <= 0:
             rep2[2] = prog["rep"][2]
+    # sometimes another model object takes a turn on the same simulator first
+    # (paired comparison of two model variants: A, B, A)
+    if rng.random() < 0.25:
+        devscommon.ref_apply(ref, ["initialize_b"])
+        cmds.extend([["initialize_b"], ["settle"]])
+        for _ in range(rng.choice([0, 1, 1, 2])):
+            if ref.can_start():
+                c = rng.choice([["start"], ["step"]]) if not ref.step_at_boundary() else ["start"]
+                devscommon.ref_apply(ref, c)
+                cmds.extend([c, ["settle"]])
+        case["two_models"] = True
     init2 = ["initialize"] + ([rep2] if rep2 else [])
     case["reinit_at"] = len([c for c in cmds if c[0] not in HARNESS_ACTIONS])
     devscommon.ref_apply(ref, init2)
@@ -250,6 +261,8 @@ def execute(case):
     if ext.errors and not findings:
         findings.append(("observation-raised", ext.errors[0]))
     cnt["prior:" + case.get("prior", "?")] = 1
+    if case.get("two_models"):
+        cnt["prior:second_model_object_in_between"] = 1
     cnt["fault:reinitialize"] = 1
     res = {"digest": r.digest(), "clean": r.clean, "counters": cnt,
            "final_case": devscommon.replay_form(case, r),
